@@ -1,10 +1,129 @@
-(* C09 — All input forms are equivalent and file save/load is the identity. *)
-From Coq Require Import NArith List Bool.
+(* C09 — All input forms are equivalent and file save/load is the identity.
+
+   Model: Model/IO.v (read_input = CiscoConfParse.read_config + the list/tuple test that follows it,
+   load = read_config_file under openargs, save = save_as after fix F10).  get_text() of a parsed line
+   list is that list (property C01; re-observed by the correspondence on every case).
+   A config is a list of (line, line end) pairs; text_of concatenates them, lines_of drops the ends. *)
+From Coq Require Import NArith List Bool Arith.
 Require Import CCP.Lib.PyStr CCP.Lib.Res CCP.gen.TabC09 CCP.Model.IO CCP.Proofs.C09Proofs.
 Import ListNotations.
 
+(* the constants the model relies on are those of the source / the running interpreter *)
 Theorem C09_tables_as_modelled :
   linesplit_rgx_src = [92; 114; 42; 92; 110]%N /\ save_newline_src = [LF] /\ openargs_newline_none = true
   /\ is_linebreak LF = true /\ is_linebreak CR = true.
 Proof. exact tables_as_modelled. Qed.
 Print Assumptions C09_tables_as_modelled.
+
+(* ---- forms_agree: list = tuple = multi-line string (every line ended by LF or CRLF, independently);
+   the final line end does not start another line *)
+Theorem C09_forms_agree : forall fs pairs,
+  Forall (fun p => no_break (fst p) = true /\ is_lf_or_crlf (snd p) = true) pairs -> 2 <= length pairs ->
+  read_input fs (InList (lines_of pairs)) = Ok (lines_of pairs)
+  /\ read_input fs (InTuple (lines_of pairs)) = Ok (lines_of pairs)
+  /\ read_input fs (InStr (text_of pairs)) = Ok (lines_of pairs).
+Proof. exact forms_agree. Qed.
+Print Assumptions C09_forms_agree.
+Example C09_forms_agree_ex :
+  let pairs := [([104; 111; 115; 116]%N, [CR; LF]); ([32; 98]%N, [LF]); ([], [LF]); ([233; 8364]%N, [CR; LF])] in
+  Forall (fun p => no_break (fst p) = true /\ is_lf_or_crlf (snd p) = true) pairs /\ 2 <= length pairs
+  /\ read_input (fun _ => None) (InStr (text_of pairs)) = Ok [[104; 111; 115; 116]; [32; 98]; []; [233; 8364]]%N.
+Proof. repeat split; repeat constructor. Qed.
+
+(* ... and the string may also lack the final line end (then its last line is not empty) *)
+Theorem C09_forms_agree_nofinal : forall fs pairs l,
+  Forall (fun p => no_break (fst p) = true /\ is_lf_or_crlf (snd p) = true) pairs ->
+  no_break l = true -> l <> [] -> 1 <= length pairs ->
+  read_input fs (InList (lines_of pairs ++ [l])) = Ok (lines_of pairs ++ [l])
+  /\ read_input fs (InTuple (lines_of pairs ++ [l])) = Ok (lines_of pairs ++ [l])
+  /\ read_input fs (InStr (text_of pairs ++ l)) = Ok (lines_of pairs ++ [l]).
+Proof. exact forms_agree_nofinal. Qed.
+Print Assumptions C09_forms_agree_nofinal.
+Example C09_forms_agree_nofinal_ex :
+  read_input (fun _ => None) (InStr (text_of [([97]%N, [CR; LF]); ([], [LF])] ++ [32; 99]%N)) = Ok [[97]; []; [32; 99]]%N.
+Proof. reflexivity. Qed.
+
+(* ---- file_is_split: a str that is one line is a path; the file's text is split at its line ends
+   (LF, CRLF, lone CR): spec_lines = split at LF after universal-newline translation *)
+Theorem C09_file_is_split : forall fs p content,
+  (exists x, splitlines_py p = [x]) -> fs p = Some content ->
+  read_input fs (InStr p) = Ok (spec_lines content).
+Proof. exact file_is_split. Qed.
+Print Assumptions C09_file_is_split.
+(* in terms of lines: a file of LF/CRLF-terminated lines yields the lines and one empty element for the
+   text after the final line end (pinned by the repo's test suite); without final line end, the lines *)
+Theorem C09_file_form : forall fs p pairs,
+  (exists x, splitlines_py p = [x]) -> fs p = Some (text_of pairs) ->
+  Forall (fun p => no_crlf (fst p) = true /\ is_lf_or_crlf (snd p) = true) pairs ->
+  read_input fs (InStr p) = Ok (lines_of pairs ++ [[]]).
+Proof. exact file_form. Qed.
+Print Assumptions C09_file_form.
+Theorem C09_file_form_nofinal : forall fs p pairs l,
+  (exists x, splitlines_py p = [x]) -> fs p = Some (text_of pairs ++ l) ->
+  Forall (fun p => no_crlf (fst p) = true /\ is_lf_or_crlf (snd p) = true) pairs -> no_crlf l = true ->
+  read_input fs (InStr p) = Ok (lines_of pairs ++ [l]).
+Proof. exact file_form_nofinal. Qed.
+Print Assumptions C09_file_form_nofinal.
+Example C09_file_form_ex :
+  let fs := fun p : str => if str_eqb p [47; 120]%N then Some (text_of [([97]%N, [CR; LF]); ([11; 98]%N, [LF])]) else None in
+  read_input fs (InStr [47; 120]%N) = Ok [[97]; [11; 98]; []]%N /\ (exists x, splitlines_py [47; 120]%N = [x]).
+Proof. split; [reflexivity | eexists; reflexivity]. Qed.
+
+(* ---- the string form and the file form of the SAME text: equal up to the element after the final
+   line end, for every text without VT FF FS GS RS NEL LS PS (no other hypothesis: lone CR, CR runs,
+   missing final line end, blank lines are all covered) *)
+Theorem C09_str_form_is_file_form : forall fs s,
+  no_exotic s = true -> 2 <= length (splitlines_py s) ->
+  read_input fs (InStr s) = Ok (drop_last_empty (spec_lines s)).
+Proof. exact str_form_is_file_form. Qed.
+Print Assumptions C09_str_form_is_file_form.
+Example C09_str_form_is_file_form_ex :
+  no_exotic [97; 13; 13; 10; 98; 10; 10]%N = true /\ 2 <= length (splitlines_py [97; 13; 13; 10; 98; 10; 10]%N).
+Proof. split; [reflexivity | vm_compute; repeat constructor]. Qed.
+
+(* F11 (known finding): the guard of the previous theorem cannot be dropped: 'a\x0bb\nc' *)
+Theorem C09_splitlines_extra_refuted :
+  exists s, 2 <= length (splitlines_py s) /\ splitlines_py s <> drop_last_empty (spec_lines s).
+Proof. exact splitlines_extra_refuted. Qed.
+Print Assumptions C09_splitlines_extra_refuted.
+
+(* ---- cycle_stable: for EVERY file content (any code points, any mix of line ends), from the first
+   save on every further load/save cycle writes the same text and reads the same lines *)
+Theorem C09_cycle_stable : forall content,
+  let b1 := save (load content) in
+  (forall n, cycles n b1 = b1) /\ (forall n, load (cycles n b1) = load b1) /\ load (save (load b1)) = load b1.
+Proof. exact cycle_stable. Qed.
+Print Assumptions C09_cycle_stable.
+Example C09_cycle_stable_ex :
+  let content := [97; 13; 10; 32; 98; 13; 13; 10; 10; 233]%N in
+  load content = [[97]; [32; 98]; []; []; [233]]%N /\ save (load content) = [97; 10; 32; 98; 10; 10; 10; 233; 10]%N
+  /\ load (save (load content)) = [[97]; [32; 98]; []; []; [233]; []]%N
+  /\ cycles 5 (save (load content)) = save (load content).
+Proof. repeat split; reflexivity. Qed.
+
+(* the same when the first save is of a list / tuple / string input (lines without CR / LF) *)
+Theorem C09_cycle_stable_list : forall ls, Forall (fun l => no_crlf l = true) ls ->
+  let b1 := save ls in
+  (forall n, cycles n b1 = b1) /\ (forall n, load (cycles n b1) = drop_last_empty ls ++ [[]]).
+Proof. exact cycle_stable_list. Qed.
+Print Assumptions C09_cycle_stable_list.
+Example C09_cycle_stable_list_ex :
+  Forall (fun l => no_crlf l = true) [[97]; []; [98]; []; []]%N /\ save [[97]; []; [98]; []; []]%N = [97; 10; 10; 98; 10; 10]%N.
+Proof. split; [repeat constructor | reflexivity]. Qed.
+
+(* so a config file neither grows nor shrinks *)
+Theorem C09_cycle_length : forall content n,
+  length (cycles n (save (load content))) = length (save (load content)).
+Proof. exact cycle_length. Qed.
+Print Assumptions C09_cycle_length.
+
+(* what a re-load returns: the saved lines and the empty text after the final newline *)
+Theorem C09_load_save : forall ls, Forall (fun l => no_crlf l = true) ls ->
+  load (save ls) = drop_last_empty ls ++ [[]] /\ save (load (save ls)) = save ls.
+Proof. intros ls H. split; [apply load_save | apply save_load_save]; exact H. Qed.
+Print Assumptions C09_load_save.
+
+(* every loaded line is free of CR and LF (so the list hypotheses above hold for anything read from a file) *)
+Theorem C09_load_lines_clean : forall content, Forall (fun l => no_crlf l = true) (load content).
+Proof. exact load_lines_clean. Qed.
+Print Assumptions C09_load_lines_clean.
